@@ -84,3 +84,23 @@ package otlp
 //@     invariant [one-copy-per-attribute-so-far] ghost(0, "resAttrStored") == rangeindex + 1 && rangeindex + 1 <= len(resourceLog.Resource.Attributes) && resourceLog.Resource != nil
 //@   ensures [every-resource-attribute-is-copied] implies(result2 == nil && resourceLog.Resource != nil, ghost(0, "resAttrStored") == len(resourceLog.Resource.Attributes))
 //@ end
+
+// C16 (an OTLP value is stored as it was sent, or its record is rejected): an
+// array or key/value-list value converts successfully only if EVERY element
+// converted — an element of an unsupported kind anywhere in the list fails the
+// whole value (it is never stored as a silent null).  Ghost anyElemFailed: the
+// conversion of some element of this value returned an error.
+//@ ghostdecl anyElemFailed int
+//@ func extractAnyValue @elems
+//@   props C16
+//@   ghostinit ghost(0, "anyElemFailed") == 0
+//@   site callret extractAnyValue #1:
+//@     ghostset ghost(0, "anyElemFailed") = ite(result1 != nil, 1, ghost(0, "anyElemFailed"))
+//@   site callret extractKeyValue #1:
+//@     ghostset ghost(0, "anyElemFailed") = ite(result2 != nil, 1, ghost(0, "anyElemFailed"))
+//@   loop 1:
+//@     invariant [no-element-so-far-failed] ghost(0, "anyElemFailed") == 0
+//@   loop 2:
+//@     invariant [no-pair-so-far-failed] ghost(0, "anyElemFailed") == 0
+//@   ensures [a-list-value-converts-only-if-every-element-converted] implies(result1 == nil, ghost(0, "anyElemFailed") == 0)
+//@ end
